@@ -57,6 +57,14 @@ class ConclusionSelector(LogicalBinaryOperator, ABC):
             self._conclusion_.update(conclusions)
             self.concluded_before[not self._is_false_].add(required_output)
 
+    def _reset_evaluation_state_(self) -> None:
+        """
+        A new evaluation concludes again what a previous evaluation has concluded.
+        """
+        for seen_set in self.concluded_before.values():
+            seen_set.clear()
+        self._conclusion_.clear()
+
     @property
     def _plot_color_(self) -> ColorLegend:
         return ColorLegend("ConclusionSelector", "#eded18")
